@@ -10,6 +10,7 @@
 #include <sys/epoll.h>
 #include <sys/socket.h>
 #include <sys/timerfd.h>
+#include <sys/wait.h>
 #include <unistd.h>
 #include "vh.h"
 #include "threadpool/threadpool.h"
@@ -56,16 +57,17 @@ __wrap_timerfd_settime(int fd, int flags, const struct itimerspec *n, struct iti
 #define ID_A	0	/* pipe read end: READ */
 #define ID_B	1	/* socketpair end: READ or WRITE */
 #define ID_T	2	/* timer */
-#define NID	3
+#define ID_P	3	/* child process (TP_EV_PROC); only the proc_history enumeration uses it */
+#define NID	4
 
-enum { S_ADD = 1, S_ENABLE1, S_ENABLEF, S_DISABLE, S_DEL, S_READY, S_DRAIN, S_PEERCLOSE, S_FIRE, S_SETACT };
+enum { S_ADD = 1, S_ENABLE1, S_ENABLEF, S_DISABLE, S_DEL, S_READY, S_DRAIN, S_PEERCLOSE, S_FIRE, S_SETACT, S_PEXIT };
 enum { ACT_NONE = 0, ACT_DISABLE_SELF, ACT_DEL_SELF, ACT_ENABLE_OTHER, ACT_DRAIN_SELF };
-static const char *stepname[] = { "?", "add", "enable1", "enableF", "disable", "del", "ready", "drain", "peerclose", "fire", "setact" };
+static const char *stepname[] = { "?", "add", "enable1", "enableF", "disable", "del", "ready", "drain", "peerclose", "fire", "setact", "child-exits" };
 static const char *actname[] = { "none", "disable-self", "del-self", "enable-other", "drain-self" };
-static const char *idname[] = { "A(pipe)", "B(sock)", "T(timer)" };
+static const char *idname[] = { "A(pipe)", "B(sock)", "T(timer)", "P(process)" };
 
 typedef struct step_s { uint8_t op, id, a, b; } step_t;	/* add: a = event, b = flags; setact: a = action */
-#define MAXSTEPS 8
+#define MAXSTEPS 10
 static step_t hist[MAXSTEPS];
 static int nsteps;
 
@@ -84,6 +86,9 @@ static int cur_step, settle_left, shutdown_sent, in_iteration, iter_cb;
 static int window_need[NID];	/* member of the fireable set during the whole current settle window */
 static int grid_mode = 0;	/* timer/validation grids: callbacks are not checked */
 static int hist_failed;
+static pid_t child_pid = -1;
+static int child_pipe = -1, child_alive = 0;
+#define CHILD_EXIT_CODE 7
 
 #define SETTLE_N (2 * NID + 3)
 
@@ -151,6 +156,14 @@ user_cb(tp_event_p ev, tp_udata_p ud) {
 	}
 	if (TP_EV_TIMER == r->m_event)
 		r->m_ready = 0;	/* expiry consumed */
+	if (TP_EV_PROC == r->m_event) {
+		if (TP_FF_P_EXIT != ev->fflags)
+			hfail("proc-fflags", "process event carries fflags %#x, want TP_FF_P_EXIT", ev->fflags);
+		if (!WIFEXITED((int)ev->data) || CHILD_EXIT_CODE != WEXITSTATUS((int)ev->data))
+			hfail("proc-exit-status", "process event carries status %#llx, the child exited with code %d", (unsigned long long)ev->data, CHILD_EXIT_CODE);
+		r->m_reg = 0;	/* a process exits once: the registration is gone whatever the flags */
+		r->m_ready = 0;
+	}
 	/* what the library promised to do before calling us */
 	if (0 != (r->m_flags & TP_F_ONESHOT))
 		r->m_reg = 0;
@@ -172,7 +185,8 @@ user_cb(tp_event_p ev, tp_udata_p ud) {
 		}
 		break;
 	case ACT_ENABLE_OTHER:
-		other = (id + 1) % NID;
+		other = (id + 1) % 3;	/* among A, B, T */
+		if (ID_P == id) break;
 		if (R[other].m_reg) {
 			rc = tpt_ev_enable_args1(1, (uint16_t)R[other].m_event, &R[other].ud);
 			if (0 == rc) {
@@ -209,6 +223,25 @@ apply_step(const step_t *s) {
 
 	switch (s->op) {
 	case S_ADD:
+		if (ID_P == s->id) {
+			int pp[2];
+			if (child_alive || 0 != pipe(pp)) break;
+			child_pid = fork();
+			if (0 == child_pid) { /* child: wait until the harness closes the pipe, then exit */
+				char c;
+				close(pp[1]);
+				while (0 < read(pp[0], &c, 1)) ;
+				_exit(CHILD_EXIT_CODE);
+			}
+			close(pp[0]);
+			child_pipe = pp[1];
+			child_alive = 1;
+			r->ud.ident = (uintptr_t)child_pid;
+			rc = tpt_ev_add_args(t0, TP_EV_PROC, s->b, 0, 0, &r->ud);
+			if (0 != rc) { hfail("add-refused", "well-formed process registration refused rc=%d", rc); break; }
+			r->m_reg = 1; r->m_en = 1; r->m_event = TP_EV_PROC; r->m_flags = s->b; r->m_ready = 0;
+			break;
+		}
 		if (ID_T == s->id)
 			rc = tpt_ev_add_args(t0, TP_EV_TIMER, s->b, TP_FF_T_SEC, 3600, &r->ud);
 		else
@@ -242,7 +275,9 @@ apply_step(const step_t *s) {
 		rc = tpt_ev_enable_args1(0, (uint16_t)r->m_event, &r->ud);
 		if (0 != rc)
 			hfail("disable-refused", "disable of a registered event refused rc=%d", rc);
-		else {
+		else if (ID_P == s->id) {
+			r->m_reg = 0; /* documented: for a process event disable == delete (the pidfd is closed) */
+		} else {
 			r->m_en = 0;
 			if (ID_T == s->id) r->m_ready = 0; /* disarmed */
 		}
@@ -282,6 +317,16 @@ apply_step(const step_t *s) {
 		break;
 	case S_SETACT:
 		r->act = s->a;
+		break;
+	case S_PEXIT: /* the child process exits now */
+		if (child_alive) {
+			siginfo_t si;
+			close(child_pipe); child_pipe = -1;
+			memset(&si, 0, sizeof(si));
+			waitid(P_PID, (id_t)child_pid, &si, WEXITED | WNOWAIT);	/* wait for the exit, do not reap: the library does */
+			child_alive = 0;
+			if (r->m_reg) r->m_ready = 1;
+		}
 		break;
 	}
 }
@@ -368,6 +413,8 @@ run_history(void) {
 	R[ID_A].fd = p[0]; R[ID_A].peer = p[1]; R[ID_A].ud.ident = (uintptr_t)p[0];
 	R[ID_B].fd = sp[0]; R[ID_B].peer = sp[1]; R[ID_B].ud.ident = (uintptr_t)sp[0];
 	R[ID_T].fd = -1; R[ID_T].peer = -1; R[ID_T].ud.ident = 1;
+	R[ID_P].fd = -1; R[ID_P].peer = -1; R[ID_P].ud.ident = 0;
+	child_pid = -1; child_pipe = -1; child_alive = 0;
 	for (i = 0; i < NID; i ++)
 		R[i].ud.cb_func = user_cb;
 	cur_step = 0; settle_left = 0; shutdown_sent = 0; in_iteration = 0;
@@ -377,6 +424,13 @@ run_history(void) {
 	/* user-owned timer: remove before destroying, as an application would */
 	if (R[ID_T].m_reg)
 		tpt_ev_del_args1(TP_EV_TIMER, &R[ID_T].ud);
+	if (R[ID_P].m_reg)
+		tpt_ev_del_args1(TP_EV_PROC, &R[ID_P].ud);
+	if (child_pid > 0) {
+		if (child_alive) { kill(child_pid, SIGKILL); if (child_pipe >= 0) close(child_pipe); }
+		waitpid(child_pid, NULL, 0);	/* ECHILD when the library already reaped it */
+		child_pid = -1; child_alive = 0; child_pipe = -1;
+	}
 	tp_destroy(tp);
 	tp = NULL;
 	for (i = 0; i < 2; i ++) {
@@ -401,7 +455,7 @@ enumerate(int depth, abs_t a) {
 		if (vh_begin("history")) {
 			vh_set_describer(hist_desc);
 			run_history();
-			total = R[0].cb_total + R[1].cb_total + R[2].cb_total;
+			total = R[0].cb_total + R[1].cb_total + R[2].cb_total + R[3].cb_total;
 			if (total > 0 && !hist_failed)
 				vh_nontrivial();
 			vh_outcome(&total, sizeof(total));
@@ -410,7 +464,7 @@ enumerate(int depth, abs_t a) {
 	if (depth == max_depth)
 		return;
 #define PUSH(_op, _id, _a, _b) do { hist[depth].op = (_op); hist[depth].id = (uint8_t)(_id); hist[depth].a = (uint8_t)(_a); hist[depth].b = (uint8_t)(_b); } while (0)
-	for (id = 0; id < NID; id ++) {
+	for (id = 0; id < 3; id ++) {
 		/* add (also over an existing registration: re-add modifies it) */
 		for (f = 0; f < 3; f ++) {
 			for (e = 0; e < 2; e ++) {
@@ -565,6 +619,44 @@ validation_grid(void) {
 	grid_mode = 0;
 }
 
+/* histories around a process event: add(P, flags) / delete / disable / the child exits, interleaved with a
+ * persistent read event on the pipe (add, make ready, drain) */
+static void
+enumerate_proc(int depth, int preg, int forked, int alive, int areg) {
+	static const int flagset[3] = { 0, TP_F_ONESHOT, TP_F_DISPATCH };
+	int f, total;
+
+	if (depth > 0) {
+		nsteps = depth;
+		if (vh_begin("proc_history")) {
+			vh_set_describer(hist_desc);
+			run_history();
+			total = R[0].cb_total + R[3].cb_total;
+			if (R[3].cb_total > 0 && !hist_failed)
+				vh_nontrivial();
+			vh_outcome(&total, sizeof(total));
+		}
+	}
+	if (depth == max_depth + 2)	/* the alphabet is small: two steps deeper than the main enumeration */
+		return;
+	if (!forked) {
+		for (f = 0; f < 3; f ++) { PUSH(S_ADD, ID_P, TP_EV_PROC, flagset[f]); enumerate_proc(depth + 1, 1, 1, 1, areg); }
+	}
+	if (preg) {
+		PUSH(S_DEL, ID_P, 0, 0); enumerate_proc(depth + 1, 0, forked, alive, areg);
+		PUSH(S_DISABLE, ID_P, 0, 0); enumerate_proc(depth + 1, 0, forked, alive, areg);
+	}
+	if (alive) {
+		PUSH(S_PEXIT, ID_P, 0, 0); enumerate_proc(depth + 1, preg, forked, 0, areg);	/* preg stays: the model decides whether it fires */
+	}
+	if (!areg) {
+		PUSH(S_ADD, ID_A, TP_EV_READ, 0); enumerate_proc(depth + 1, preg, forked, alive, 1);
+	} else {
+		PUSH(S_READY, ID_A, 0, 0); enumerate_proc(depth + 1, preg, forked, alive, areg);
+		PUSH(S_SETACT, ID_A, ACT_DRAIN_SELF, 0); enumerate_proc(depth + 1, preg, forked, alive, areg);
+	}
+}
+
 int
 main(int argc, char **argv) {
 	abs_t a;
@@ -580,5 +672,6 @@ main(int argc, char **argv) {
 	validation_grid();
 	memset(&a, 0, sizeof(a));
 	enumerate(0, a);
+	enumerate_proc(0, 0, 0, 0, 0);
 	return (vh_finish());
 }
